@@ -64,15 +64,26 @@ func (s *Sys) execFault(op []string) string {
 		return "fl(skip);" + s.Exec(op)
 	}
 	var oldD, newD string
+	pruneTo := -1
+	if op[0] == "prune" {
+		pruneTo = int(atoi(op[1]))
+	}
+	// for a deletion only the versions it is not deleting are compared (see crash.go)
+	view := func(d treeDump) string {
+		if pruneTo >= 0 {
+			return d.above(pruneTo)
+		}
+		return d.walkOnly()
+	}
 	if isWriteOp(op) {
 		t0, err := s.openOn(imageDB(pre, nil), fast)
 		if err == nil {
-			oldD = dumpTree(t0).walkOnly()
+			oldD = view(dumpTree(t0))
 			_ = t0.Close()
 		}
 		t1, err := s.openOn(refSys.base, fast)
 		if err == nil {
-			newD = dumpTree(t1).walkOnly()
+			newD = view(dumpTree(t1))
 			_ = t1.Close()
 		}
 	}
@@ -95,7 +106,7 @@ func (s *Sys) execFault(op []string) string {
 			if err != nil {
 				verdict = "reopenerr"
 			} else {
-				d := dumpTree(t2).walkOnly()
+				d := view(dumpTree(t2))
 				_ = t2.Close()
 				if d != oldD && d != newD {
 					verdict = "reopenmixture"
